@@ -23,7 +23,9 @@ def gen_repo(rng, n, first_zero=None):
         t = rng.choice(TYPES)
         if t == 0x01:
             enc = rng.randrange(4)
-            c = rng.choice([0, 0, 1, 2, 3, 4, 5, 7, 8, 11, 16])
+            # (21 eight-bit characters, or 28 six-bit ones, make the record body exactly 64 bytes - the largest a Full Sensor
+            # Record can be, and the most the walk reads in one request)
+            c = rng.choice([0, 0, 1, 2, 3, 4, 5, 7, 8, 11, 16, 21, 21, 28, 31])
             need = {0: c, 3: c, 1: (c + 1) // 2, 2: c - c // 4}[enc]
             if enc in (0, 3) and c == 1:
                 c, need = 2, 2
